@@ -54,7 +54,7 @@ def routing(ctx, sample, shape=0):
     CTX = b"application context v2" if (shape // 2) % 2 else None
     srv_ctx = {}
     for n_, sid in enumerate(sessions):
-        srv_ctx[sid] = CTX if (CTX is None or n_ % 5 != 4) else (None if n_ % 2 else b"application context v1")
+        srv_ctx[sid] = CTX
     if CTX is not None:
         # sessions that are right in everything - user, record, identifier, this client's own request - except the context
         for tag, cx in (("#no-context", None), ("#empty-context", b""), ("#other-context", b"application context v1")):
